@@ -5,11 +5,19 @@
    64-bit look-ahead buffer of bstreamReader (both are tied to the real code by the
    correspondence check, byte for byte).
    Conventions: timestamps are int64 values (Z in [-2^63, 2^63)), float values are their 64-bit
-   patterns (Z in [0, 2^64)); every Go operation that can wrap is written with wrap64 / u64. *)
+   patterns (Z in [0, 2^64)); every Go operation that can wrap is written with W64 / U64 (= wrap64 / u64). *)
 From Coq Require Import List ZArith Bool.
 From Verif Require Import lib.Int64 lib.Bits.
 Import ListNotations.
 Open Scope Z_scope.
+
+(* uint64 truncation and int64 re-interpretation, written with Z.land so that they evaluate in
+   time linear in the word size (lib/Int64's u64 / wrap64 use Z.modulo); proof/XorProofs.v shows
+   U64 = u64 and W64 = wrap64. *)
+Definition mask64 : Z := 18446744073709551615.
+Definition U64 (z : Z) : Z := Z.land z mask64.
+Definition W64 (z : Z) : Z :=
+  let y := U64 z in if y <? 9223372036854775808 then y else y - 18446744073709551616.
 
 Record sample := mkS { s_st : Z; s_t : Z; s_v : Z }.
 
@@ -43,7 +51,7 @@ Fixpoint get_uvarint_aux (chk : bool) (fuel : nat) (i s x : Z) (bs : bits) : opt
            | Some (b, r) =>
                if b <? 128 then
                  if chk && (i =? 9) && (1 <? b) then None   (* errOverflow *)
-                 else Some (u64 (x + b * 2 ^ s), r)
+                 else Some (U64 (x + b * 2 ^ s), r)
                else get_uvarint_aux chk f (i + 1) (s + 7) (x + (b - 128) * 2 ^ s) r
            end
   end.
@@ -63,7 +71,7 @@ Definition bitRange (x n : Z) : bool := (- (2 ^ (n - 1) - 1) <=? x) && (x <=? 2 
 
 (* sign restoration used by xorIterator.Next and readVarbitInt:
    `if bits > 1<<(sz-1) { bits -= 1<<sz }` (uint64 arithmetic, then int64) *)
-Definition unsign_gt (sz b : Z) : Z := if 2 ^ (sz - 1) <? b then wrap64 (u64 (b - 2 ^ sz)) else b.
+Definition unsign_gt (sz b : Z) : Z := if 2 ^ (sz - 1) <? b then W64 (U64 (b - 2 ^ sz)) else b.
 
 Definition clamp_lead (l : Z) : Z := if 32 <=? l then 31 else l.
 
@@ -92,7 +100,7 @@ Definition read_new_window (base : Z) (bs : bits) : option (Z * Z * Z * bits) :=
           let nt := (64 - nl - mbits) mod 256 in              (* uint8 arithmetic *)
           match get_bits (Z.to_nat mbits) r4 with
           | None => None
-          | Some (b, r5) => Some (Z.lxor base (u64 (Z.shiftl b nt)), nl, nt, r5)
+          | Some (b, r5) => Some (Z.lxor base (U64 (Z.shiftl b nt)), nl, nt, r5)
           end
       end
   end.
@@ -101,7 +109,7 @@ Definition read_reuse_window (base lead trail : Z) (bs : bits) : option (Z * bit
   let mbits := (64 - lead - trail) mod 256 in                  (* uint8 arithmetic *)
   match get_bits (Z.to_nat mbits) bs with
   | None => None
-  | Some (b, r) => Some (Z.lxor base (u64 (Z.shiftl b trail)), r)
+  | Some (b, r) => Some (Z.lxor base (U64 (Z.shiftl b trail)), r)
   end.
 
 (* xorRead: value, leading, trailing, remaining bits *)
@@ -142,13 +150,13 @@ Definition xor_append (num : Z) (a : xapp) (t v : Z) : option (bits * xapp) :=
   if num =? 0 then
     Some (bytes_bits (put_varint t) ++ put_bits 64 v, mkXA t v 0 (a_lead a) (a_trail a))
   else if num =? 1 then
-    let tD := u64 (t - a_t a) in
+    let tD := U64 (t - a_t a) in
     let '(vb, l, tr) := xor_write (a_v a) v (a_lead a) (a_trail a) in
     Some (bytes_bits (put_uvarint tD) ++ vb, mkXA t v tD l tr)
   else if num =? 65535 then None
   else
-    let tD := u64 (t - a_t a) in
-    let dod := wrap64 (tD - a_tDelta a) in
+    let tD := U64 (t - a_t a) in
+    let dod := W64 (tD - a_tDelta a) in
     let '(vb, l, tr) := xor_write (a_v a) v (a_lead a) (a_trail a) in
     Some (xor_dod_bits dod ++ vb, mkXA t v tD l tr).
 
@@ -197,7 +205,7 @@ Definition xor_read_dod (bs : bits) : option (Z * bits) :=
         | Some (true, r) =>
             match get_bits 64 r with
             | None => None
-            | Some (b, r') => Some (wrap64 b, r')
+            | Some (b, r') => Some (W64 b, r')
             end
         end
       end
@@ -219,7 +227,7 @@ Definition xor_next (it : xit) (bs : bits) : option (xit * bits) :=
     match get_uvarint true bs with
     | None => None
     | Some (tD, r) =>
-        let t := wrap64 (i_t it + wrap64 tD) in
+        let t := W64 (i_t it + W64 tD) in
         match xor_read (i_v it) (i_lead it) (i_trail it) r with
         | None => None
         | Some (v, l, tr, r2) => Some (mkXI 2 t v tD l tr, r2)
@@ -229,8 +237,8 @@ Definition xor_next (it : xit) (bs : bits) : option (xit * bits) :=
     match xor_read_dod bs with
     | None => None
     | Some (dod, r) =>
-        let tD := u64 (wrap64 (i_tDelta it) + dod) in
-        let t := wrap64 (i_t it + wrap64 tD) in
+        let tD := U64 (W64 (i_tDelta it) + dod) in
+        let t := W64 (i_t it + W64 tD) in
         match xor_read (i_v it) (i_lead it) (i_trail it) r with
         | None => None
         | Some (v, l, tr, r2) => Some (mkXI (i_num it + 1) t v tD l tr, r2)
@@ -354,7 +362,398 @@ Definition xor_run_script (bytes : list Z) (acts : list act) : option (list obs1
   | _ => None
   end.
 
-(* TEMP stubs *)
-Definition xor2_encode (segs : list (reopen * list sample)) : eres := EAppErr.
-Definition xor2_decode (bytes : list Z) : dres := DPanic.
-Definition xor2_run_script (bytes : list Z) (acts : list act) : option (list obs1) := None.
+(* ============================================================================================ *)
+(* XOR2 chunk with start timestamps (xor2.go, varbit.go)                                        *)
+(* ============================================================================================ *)
+
+Definition staleNaN : Z := 9218868437227405314.            (* 0x7ff0000000000002 *)
+Definition is_stale (v : Z) : bool := v =? staleNaN.       (* value.IsStaleNaN *)
+
+(* putVarbitInt / putVarbitIntFast (same bits) *)
+Definition put_varbit (val : Z) : bits :=
+  if val =? 0 then [false]
+  else if bitRange val 3 then [true; false] ++ put_bits 3 val
+  else if bitRange val 6 then [true; true; false] ++ put_bits 6 val
+  else if bitRange val 9 then [true; true; true; false] ++ put_bits 9 val
+  else if bitRange val 12 then [true; true; true; true; false] ++ put_bits 12 val
+  else if bitRange val 18 then [true; true; true; true; true; false] ++ put_bits 18 val
+  else if bitRange val 25 then [true; true; true; true; true; true; false] ++ put_bits 25 val
+  else if bitRange val 56 then [true; true; true; true; true; true; true; false] ++ put_bits 56 val
+  else [true; true; true; true; true; true; true; true] ++ put_bits 64 val.
+
+(* number of leading one bits, at most [n] (the loop of readVarbitInt / readXOR2Control);
+   a zero bit ends the prefix and is consumed *)
+Fixpoint read_ones (n : nat) (bs : bits) : option (Z * bits) :=
+  match n with
+  | O => Some (0, bs)
+  | S n' => match bs with
+            | [] => None
+            | false :: r => Some (0, r)
+            | true :: r => match read_ones n' r with
+                           | None => None
+                           | Some (k, r') => Some (k + 1, r')
+                           end
+            end
+  end.
+
+(* readVarbitInt *)
+Definition get_varbit (bs : bits) : option (Z * bits) :=
+  match read_ones 8 bs with
+  | None => None
+  | Some (k, r) =>
+      if k =? 0 then Some (0, r)
+      else if k =? 8 then
+        match get_bits 64 r with
+        | None => None
+        | Some (b, r') => Some (W64 b, r')
+        end
+      else
+        let sz := if k =? 1 then 3 else if k =? 2 then 6 else if k =? 3 then 9 else if k =? 4 then 12
+                  else if k =? 5 then 18 else if k =? 6 then 25 else 56 in
+        match get_bits (Z.to_nat sz) r with
+        | None => None
+        | Some (b, r') => Some (unsign_gt sz b, r')
+        end
+  end.
+
+Record x2app := mkA2 {
+  b_st : Z; b_t : Z; b_v : Z; b_tDelta : Z; b_stDiff : Z; b_lead : Z; b_trail : Z;
+  b_num : Z; b_fsco : Z; b_fsk : bool }.
+
+(* XOR2Chunk.Appender() on an empty chunk *)
+Definition x2app_init : x2app := mkA2 0 minInt64 0 0 0 255 0 0 0 false.
+
+(* the leading/trailing window choice shared by writeVDelta and writeVDeltaKnownNonZero:
+   (reuse?, leading, trailing) for a non-zero delta *)
+Definition x2_window (delta lead trail : Z) : bool * Z * Z :=
+  let nl := clamp_lead (lz64 delta) in
+  let nt := tz64 delta in
+  if negb (lead =? 255) && (lead <=? nl) && (trail <=? nt) then (true, lead, trail) else (false, nl, nt).
+
+Definition x2_window_bits (reuse : bool) (delta l t : Z) : bits :=
+  if reuse then put_bits (Z.to_nat (64 - l - t)) (Z.shiftr delta t)
+  else put_bits 5 l ++ put_bits 6 (64 - l - t) ++ put_bits (Z.to_nat (64 - l - t)) (Z.shiftr delta t).
+
+(* writeVDelta (value encoding of the dod != 0 cases and of sample 1) *)
+Definition x2_write_vdelta (base v lead trail : Z) : bits * Z * Z :=
+  if is_stale v then ([true; true; true], lead, trail) else
+  let delta := Z.lxor v base in
+  if delta =? 0 then ([false], lead, trail) else
+  let '(reuse, l, t) := x2_window delta lead trail in
+  ((if reuse then [true; false] else [true; true; false]) ++ x2_window_bits reuse delta l t, l, t).
+
+(* writeVDeltaKnownNonZero *)
+Definition x2_write_vdelta_nz (delta lead trail : Z) : bits * Z * Z :=
+  let '(reuse, l, t) := x2_window delta lead trail in
+  ((if reuse then [false] else [true]) ++ x2_window_bits reuse delta l t, l, t).
+
+(* encodeJoint(dod, v) *)
+Definition x2_encode_joint (dod base v lead trail : Z) : bits * Z * Z :=
+  if dod =? 0 then
+    if is_stale v then ([true; true; true; true; true], lead, trail)
+    else
+      let vbits := Z.lxor v base in
+      if vbits =? 0 then ([false], lead, trail)
+      else let '(b, l, t) := x2_write_vdelta_nz vbits lead trail in ([true; false] ++ b, l, t)
+  else
+    let tb := if (- 4096 <=? dod) && (dod <=? 4095) then [true; true; false] ++ put_bits 13 dod
+              else if (- 524288 <=? dod) && (dod <=? 524287) then [true; true; true; false] ++ put_bits 20 dod
+              else [true; true; true; true; false] ++ put_bits 64 dod in
+    if v =? base then (tb ++ [false], lead, trail)
+    else let '(b, l, t) := x2_write_vdelta base v lead trail in (tb ++ b, l, t).
+
+Definition set_fsco_hdr (hdr n : Z) : Z := if n <=? 127 then Z.lor hdr n else hdr.
+
+(* xor2Appender.Append(st, t, v); the chunk's ST header byte is threaded through.
+   None = panic (capacity).  The three code paths for samples >= 2 (no-new-ST fast path,
+   active-ST fast path, slow path) all emit encodeJoint's bits for timestamp and value — their
+   inlined special cases are the corresponding branches of encodeJoint — and differ in the
+   ST part, which is what is spelled out below. *)
+Definition x2_append (a : x2app) (hdr : Z) (st t v : Z) : option (bits * x2app * Z) :=
+  let newv := if is_stale v then b_v a else v in
+  if b_num a =? 0 then
+    let stb := if st =? 0 then [] else bytes_bits (put_varint (W64 (t - st))) in
+    Some (bytes_bits (put_varint t) ++ put_bits 64 v ++ stb,
+          mkA2 st t newv 0 0 (b_lead a) (b_trail a) 1 (b_fsco a) (if st =? 0 then b_fsk a else true),
+          if st =? 0 then hdr else 128)
+  else if b_num a =? 1 then
+    let tD := U64 (t - b_t a) in
+    let '(vb, l, tr) := x2_write_vdelta (b_v a) v (b_lead a) (b_trail a) in
+    if st =? b_st a then
+      Some (bytes_bits (put_uvarint tD) ++ vb,
+            mkA2 st t newv tD 0 l tr 2 (b_fsco a) (b_fsk a), hdr)
+    else
+      let sd := W64 (b_t a - st) in
+      Some (bytes_bits (put_uvarint tD) ++ vb ++ put_varbit sd,
+            mkA2 st t newv tD sd l tr 2 1 (b_fsk a), set_fsco_hdr hdr 1)
+  else if b_num a =? 65535 then None
+  else
+    let tD := U64 (t - b_t a) in
+    let dod := W64 (tD - b_tDelta a) in
+    let '(jb, l, tr) := x2_encode_joint dod (b_v a) v (b_lead a) (b_trail a) in
+    if (b_fsco a =? 0) && (st =? b_st a) && negb (b_num a =? 127) then
+      (* no new ST data *)
+      Some (jb, mkA2 (b_st a) t newv tD (b_stDiff a) l tr (b_num a + 1) (b_fsco a) (b_fsk a), hdr)
+    else if 0 <? b_fsco a then
+      (* per-sample ST delta *)
+      let nsd := W64 (b_t a - st) in
+      let dsd := W64 (nsd - b_stDiff a) in
+      Some (jb ++ put_varbit dsd,
+            mkA2 st t newv tD nsd l tr (b_num a + 1) (b_fsco a) (b_fsk a), hdr)
+    else
+      (* first ST change (or forced at sample 127): absolute prevT - st *)
+      let sd := W64 (b_t a - st) in
+      Some (jb ++ put_varbit sd,
+            mkA2 st t newv tD sd l tr (b_num a + 1) (b_num a) (b_fsk a), set_fsco_hdr hdr (b_num a)).
+
+Fixpoint x2_append_all (a : x2app) (hdr : Z) (ss : list sample) : option (bits * x2app * Z) :=
+  match ss with
+  | [] => Some ([], a, hdr)
+  | s :: r =>
+      match x2_append a hdr (s_st s) (s_t s) (s_v s) with
+      | None => None
+      | Some (b, a', hdr') =>
+          match x2_append_all a' hdr' r with
+          | None => None
+          | Some (b2, a2, hdr2) => Some (b ++ b2, a2, hdr2)
+          end
+      end
+  end.
+
+Record x2it := mkI2 {
+  j_num : Z; j_fsk : bool; j_fsco : Z; j_lead : Z; j_trail : Z;
+  j_st : Z; j_t : Z; j_v : Z; j_tDelta : Z; j_stDiff : Z; j_base : Z }.
+
+(* xor2Iterator.Reset *)
+Definition x2it_init (hdr : Z) : x2it :=
+  mkI2 0 (128 <=? hdr) (hdr mod 128) 0 0 0 0 0 0 0 0.
+
+(* decodeNewLeadingTrailing / the reuse branch: new (val = baseline, leading, trailing) *)
+Definition x2_read_new (it : x2it) (bs : bits) : option (Z * Z * Z * bits) := read_new_window (j_base it) bs.
+Definition x2_read_reuse (it : x2it) (bs : bits) : option (Z * Z * Z * bits) :=
+  match read_reuse_window (j_base it) (j_lead it) (j_trail it) bs with
+  | None => None
+  | Some (v, r) => Some (v, j_lead it, j_trail it, r)
+  end.
+
+(* decodeValue: (val, baseline, leading, trailing) *)
+Definition x2_decode_value (it : x2it) (bs : bits) : option (Z * Z * Z * Z * bits) :=
+  let both (x : option (Z * Z * Z * bits)) :=
+    match x with None => None | Some (v, l, t, r) => Some (v, v, l, t, r) end in
+  match get_bit bs with
+  | None => None
+  | Some (false, r) => Some (j_base it, j_base it, j_lead it, j_trail it, r)
+  | Some (true, r) =>
+      match get_bit r with
+      | None => None
+      | Some (false, r2) => both (x2_read_reuse it r2)
+      | Some (true, r2) =>
+          match get_bit r2 with
+          | None => None
+          | Some (false, r3) => both (x2_read_new it r3)
+          | Some (true, r3) => Some (staleNaN, j_base it, j_lead it, j_trail it, r3)
+          end
+      end
+  end.
+
+(* decodeValueKnownNonZero *)
+Definition x2_decode_value_nz (it : x2it) (bs : bits) : option (Z * Z * Z * Z * bits) :=
+  let both (x : option (Z * Z * Z * bits)) :=
+    match x with None => None | Some (v, l, t, r) => Some (v, v, l, t, r) end in
+  match get_bit bs with
+  | None => None
+  | Some (false, r) => both (x2_read_reuse it r)
+  | Some (true, r) => both (x2_read_new it r)
+  end.
+
+(* readDod(w): new (tDelta, t) *)
+Definition x2_read_dod (w : Z) (it : x2it) (bs : bits) : option (Z * Z * bits) :=
+  match get_bits (Z.to_nat w) bs with
+  | None => None
+  | Some (b, r) =>
+      let b' := if (w <? 64) && (2 ^ (w - 1) <=? b) then U64 (b - 2 ^ w) else b in
+      let tD := U64 (W64 (j_tDelta it) + W64 b') in
+      Some (tD, W64 (j_t it + W64 tD), r)
+  end.
+
+(* the optional per-sample ST data after the joint encoding of samples >= 2 *)
+Definition x2_read_st (it : x2it) (prevT : Z) (bs : bits) : option (Z * Z * bits) :=
+  if (0 <? j_fsco it) && (j_fsco it <=? j_num it) then
+    match get_varbit bs with
+    | None => None
+    | Some (sdod, r) =>
+        let sd := if j_num it =? j_fsco it then sdod else W64 (j_stDiff it + sdod) in
+        Some (W64 (prevT - sd), sd, r)
+    end
+  else Some (j_st it, j_stDiff it, bs).
+
+(* the joint timestamp/value part of samples >= 2: readXOR2Control and the six cases.
+   Result: tDelta, t, val, baselineV, leading, trailing *)
+Definition x2_read_joint (it : x2it) (bs : bits) : option (Z * Z * Z * Z * Z * Z * bits) :=
+  match read_ones 5 bs with                     (* readXOR2Control *)
+  | None => None
+  | Some (ctrl, r) =>
+      if ctrl =? 0 then
+        Some (j_tDelta it, W64 (j_t it + W64 (j_tDelta it)), j_base it, j_base it, j_lead it, j_trail it, r)
+      else if ctrl =? 1 then
+        match x2_decode_value_nz it r with
+        | None => None
+        | Some (v, base, l, tr, r2) =>
+            Some (j_tDelta it, W64 (j_t it + W64 (j_tDelta it)), v, base, l, tr, r2)
+        end
+      else if ctrl =? 5 then
+        Some (j_tDelta it, W64 (j_t it + W64 (j_tDelta it)), staleNaN, j_base it, j_lead it, j_trail it, r)
+      else
+        let w := if ctrl =? 2 then 13 else if ctrl =? 3 then 20 else 64 in
+        match x2_read_dod w it r with
+        | None => None
+        | Some (tD, t, r2) =>
+            match x2_decode_value it r2 with
+            | None => None
+            | Some (v, base, l, tr, r3) => Some (tD, t, v, base, l, tr, r3)
+            end
+        end
+  end.
+
+(* xor2Iterator.Next() when numRead < numTotal and err == nil; None = it.err set *)
+Definition x2_next (it : x2it) (bs : bits) : option (x2it * bits) :=
+  if j_num it =? 0 then
+    match get_varint false bs with
+    | None => None
+    | Some (t, r) =>
+        match get_bits 64 r with
+        | None => None
+        | Some (v, r2) =>
+            let base := if is_stale v then j_base it else v in
+            if j_fsk it then
+              match get_varint false r2 with
+              | None => None
+              | Some (sd, r3) =>
+                  Some (mkI2 1 (j_fsk it) (j_fsco it) (j_lead it) (j_trail it) (W64 (t - sd)) t v
+                             (j_tDelta it) (j_stDiff it) base, r3)
+              end
+            else Some (mkI2 1 (j_fsk it) (j_fsco it) (j_lead it) (j_trail it) (j_st it) t v
+                            (j_tDelta it) (j_stDiff it) base, r2)
+        end
+    end
+  else if j_num it =? 1 then
+    match get_uvarint false bs with
+    | None => None
+    | Some (tD, r) =>
+        let prevT := j_t it in
+        let t := W64 (j_t it + W64 tD) in
+        match x2_decode_value it r with
+        | None => None
+        | Some (v, base, l, tr, r2) =>
+            if j_fsco it =? 1 then
+              match get_varbit r2 with
+              | None => None
+              | Some (sdod, r3) =>
+                  Some (mkI2 2 (j_fsk it) (j_fsco it) l tr (W64 (prevT - sdod)) t v tD sdod base, r3)
+              end
+            else Some (mkI2 2 (j_fsk it) (j_fsco it) l tr (j_st it) t v tD (j_stDiff it) base, r2)
+        end
+    end
+  else
+    let prevT := j_t it in
+    match x2_read_joint it bs with
+    | None => None
+    | Some (tD, t, v, base, l, tr, r2) =>
+        match x2_read_st it prevT r2 with
+        | None => None
+        | Some (st, sd, r3) =>
+            Some (mkI2 (j_num it + 1) (j_fsk it) (j_fsco it) l tr st t v tD sd base, r3)
+        end
+    end.
+
+Fixpoint x2_iter (n : nat) (it : x2it) (bs : bits) : list sample * option (x2it * bits) :=
+  match n with
+  | O => ([], Some (it, bs))
+  | S n' =>
+      match x2_next it bs with
+      | None => ([], None)
+      | Some (it', bs') =>
+          let '(l, r) := x2_iter n' it' bs' in
+          (mkS (j_st it') (j_t it') (j_v it') :: l, r)
+      end
+  end.
+
+(* XOR2Chunk.Appender(): iterate to the end, copy the iterator's state (the baseline value, not
+   the last value); the write position is restored from the reader (c.b.count = it.br.valid),
+   so in terms of the logical bit stream nothing changes *)
+Definition x2_resume (num hdr : Z) (bs : bits) : option x2app :=
+  match bs with
+  | [] => Some x2app_init
+  | _ => match snd (x2_iter (Z.to_nat num) (x2it_init hdr) bs) with
+         | None => None
+         | Some (it, _) =>
+             Some (mkA2 (j_st it) (j_t it) (j_base it) (j_tDelta it) (j_stDiff it) (j_lead it) (j_trail it)
+                        num (j_fsco it) (j_fsk it))
+         end
+  end.
+
+Fixpoint x2_run (segs : list (reopen * list sample)) (num hdr : Z) (bs : bits) : eres :=
+  match segs with
+  | [] => EOk num [hdr] bs
+  | (_, ss) :: r =>
+      match x2_resume num hdr bs with
+      | None => EAppErr
+      | Some a =>
+          match x2_append_all a hdr ss with
+          | None => EPanic
+          | Some (b, a2, hdr2) => x2_run r (num + Z.of_nat (length ss)) hdr2 (bs ++ b)
+          end
+      end
+  end.
+
+Definition xor2_encode (segs : list (reopen * list sample)) : eres := x2_run segs 0 0 [].
+
+Definition xor2_decode (bytes : list Z) : dres :=
+  match bytes with
+  | hi :: lo :: hdr :: rest =>
+      let '(l, r) := x2_iter (Z.to_nat (hi * 256 + lo)) (x2it_init hdr) (unpack_bytes rest) in
+      DOk l (match r with None => true | Some _ => false end)
+  | _ => DPanic
+  end.
+
+Record x2cur := mkC2 { cv_it : x2it; cv_bits : bits; cv_err : bool }.
+
+Definition x2cur_next (total : Z) (c : x2cur) : x2cur * bool :=
+  if cv_err c || (j_num (cv_it c) =? total) then (c, false)
+  else match x2_next (cv_it c) (cv_bits c) with
+       | None => (mkC2 (cv_it c) (cv_bits c) true, false)
+       | Some (it', bs') => (mkC2 it' bs' false, true)
+       end.
+
+Fixpoint x2cur_seek_loop (fuel : nat) (total t : Z) (c : x2cur) : option (x2cur * bool) :=
+  if (j_t (cv_it c) <? t) || (j_num (cv_it c) =? 0) then
+    match fuel with
+    | O => None
+    | S f => let '(c', ok) := x2cur_next total c in
+             if ok then x2cur_seek_loop f total t c' else Some (c', false)
+    end
+  else Some (c, true).
+
+Definition x2cur_seek (total t : Z) (c : x2cur) : option (x2cur * bool) :=
+  if cv_err c then Some (c, false) else x2cur_seek_loop (S (Z.to_nat total)) total t c.
+
+Fixpoint x2_script (total : Z) (c : x2cur) (acts : list act) : option (list obs1) :=
+  match acts with
+  | [] => Some []
+  | a :: r =>
+      match (match a with ANext => Some (x2cur_next total c) | ASeek t => x2cur_seek total t c end) with
+      | None => None
+      | Some (c', ok) =>
+          match x2_script total c' r with
+          | None => None
+          | Some l =>
+              Some ((if ok then Some (mkS (j_st (cv_it c')) (j_t (cv_it c')) (j_v (cv_it c'))) else None) :: l)
+          end
+      end
+  end.
+
+Definition xor2_run_script (bytes : list Z) (acts : list act) : option (list obs1) :=
+  match bytes with
+  | hi :: lo :: hdr :: rest => x2_script (hi * 256 + lo) (mkC2 (x2it_init hdr) (unpack_bytes rest) false) acts
+  | _ => None
+  end.
